@@ -7,7 +7,7 @@ from ..pyvc.engine import Unsupported
 
 VERIFIERS = [("register", "verify_register_elaborate"), ("monitor_l1", "verify_monitor_elaborate"), ("decoder_l1", "verify_csr_decoder_elaborate"),
              ("decoder_l1", "verify_wb_decoder_elaborate"), ("arbiter_l1", "verify_arbiter_grant"), ("arbiter_l1", "verify_arbiter_fanout"),
-             ("gpio_l1", "verify_gpio_elaborate"), ("sram_l1", "verify_sram_elaborate"), ("bridge_l1", "verify_bridge_elaborate"),
+             ("gpio_l1", "verify_gpio_elaborate"), ("gpio_l1", "verify_output_field_elaborate"), ("sram_l1", "verify_sram_elaborate"), ("bridge_l1", "verify_bridge_elaborate"),
              ("mux_l1", "verify_mux_elaborate"), ("glue_l1", "verify_eventmonitor_elaborate"), ("glue_l1", "verify_csr_bridge_elaborate")]
 
 
@@ -26,7 +26,8 @@ def add_to(run):
             continue
         mine = [o for o in fv.obs if o.clause == "stores-nothing-on-the-component"]
         obs += mine
-        done.append(fv.qualname)
+        if mine:
+            done.append(fv.qualname)
     for q in sorted(set(done)):
         run.functions[f"amaranth_soc.{q} [no attribute of the component re-bound on any path]"] = "proved (pyvc path-wise execution with recording stubs, all configurations)"
     for s in skipped:
